@@ -460,6 +460,13 @@ class SimE(Simulator):
             for i in range(rng.randint(0, 2)):
                 fam = rng.choice(fams)
                 xc.append([f"XC{i}", rng.sample(fam, rng.randint(1, min(3, len(fam)))) if rng.random() < 0.85 else None])
+            xcat = None
+            if rng.random() < 0.4:
+                # a categorical command with exclusive and additive options (a valve selector)
+                excl = rng.sample(["Closed", "Off", "Home"], rng.randint(0, 2))
+                addi = rng.sample(["VA01", "VA02", "VA03", "VA04"], rng.randint(0 if excl else 1, 3))
+                xcat = ["XV", {"exclusive": excl, "additive": addi}]
+                xc.append(xcat)
             cfg["extra_tags"], cfg["extra_cmds"] = xt, xc
 
             def unit_near(u):
@@ -486,8 +493,14 @@ class SimE(Simulator):
                                                [f"V{k}b{rng.randint(0, 999)}", "    Mark: v"]] + method[k:]
                     else:
                         method = method[:k] + [[f"V{k}s{rng.randint(0, 999)}", f"Simulate: {name} = {rhs}"]] + method[k:]
+                elif xcat is not None and rng.random() < 0.6:
+                    opts = xcat[1]["exclusive"] + xcat[1]["additive"] + ["VA09", "Open"]
+                    arg = "+".join(rng.choice(opts) for _ in range(rng.choice([1, 1, 2, 2, 3])))
+                    method = method[:k] + [[f"V{k}x{rng.randint(0, 999)}", f"XV: {arg}"]] + method[k:]
                 else:
-                    name, us = rng.choice(xc)
+                    name, us = rng.choice([c for c in xc if not isinstance(c[1], dict)] or [["XC9", None]])
+                    if name == "XC9":
+                        continue
                     u2 = unit_near(us[0] if us else None)
                     val = rng.choice(["1", "5", "0.5", "-1", "x"])
                     method = method[:k] + [[f"V{k}c{rng.randint(0, 999)}", f"{name}: {val}" + ("" if u2 is None else f" {u2}")]] + method[k:]
